@@ -246,6 +246,51 @@ def run(self):
                 ts(fname.encode()), opt(old), "; ".join(t for t in fops if t), opt(new), int(rc != 0))
             obs = "TL [%s; TL []]" % optref(read(fname), old, new)
             cases.append({"in": inp, "obs": obs, "gen": "fs-fault", "what": "save %s -> %s configs, %s fails with %s (exit %d)" % (oldn, newn, c["name"], ERRS[c["name"]], rc)})
+    # ---- a failed edit followed by more work in the SAME process (harness c19-edits): the first
+    # edit (overwrite / delete / append, optionally after a page render has read the file) gets one
+    # system call of its writeSettings part failed; then menu, save, delete, save run normally.
+    # The child prints the complete "seq" case; M_Settings predicts every step.
+    import json as _json
+    edit_variants = ["overwrite", "delete", "overwrite+read", "delete+read"]
+    if self.tier == "thorough":
+        edit_variants += ["append", "append+read"]
+    stats["edit_fault_points"] = 0
+    for vi, variant in enumerate(edit_variants):
+        d = os.path.join(base, "e%d" % vi)
+        fname = os.path.join(d, "cfgdir", "pprof", "settings.json")
+
+        def echild(inject=None, log=None):
+            shutil.rmtree(os.path.join(d, "cfgdir"), ignore_errors=True)
+            cmd = [hb, "c19-edits", fname, variant]
+            if log:
+                cmd = ["strace", "-f", "-xx", "-s", "1000000", "-e", "trace=" + ",".join(CALLS)] + \
+                      (["-e", "inject=" + inject] if inject else []) + ["-o", log] + cmd
+            p = subprocess.run(cmd, env=env, stdout=subprocess.PIPE, stderr=subprocess.PIPE, timeout=60)
+            try:
+                return p.returncode, _json.loads(p.stdout.decode("utf-8", "replace").strip().split("\n")[-1])
+            except Exception:
+                return p.returncode, None
+
+        os.makedirs(d, exist_ok=True)
+        log = os.path.join(d, "base.log")
+        rc, case = echild(log=log)
+        tid, win = window(parse(open(log, errors="replace").read()))
+        if rc != 0 or case is None or tid is None:
+            self.violation(dict(kind="c19fs-edits-baseline-failed", rc=rc, variant=variant), False)
+            return
+        cases.append({"in": case["in"], "obs": case["obs"], "gen": "fs-edits", "what": "%s then more work, no fault" % variant})
+        # only the writeSettings part: from the creation of the temporary file on
+        start = next((j for j, c in enumerate(win) if c["name"] == "openat" and "O_CREAT" in c["args"]), len(win))
+        for j, c in enumerate(win):
+            if j < start or c["name"] not in ERRS or (c["ret"] is not None and c["ret"] < 0):
+                continue
+            rc, case = echild(inject="%s:error=%s:when=%d" % (c["name"], ERRS[c["name"]], c["ordinal"]), log=os.path.join(d, "f%d.log" % j))
+            if case is None:
+                self.violation(dict(kind="c19fs-edits-child-failed", rc=rc, variant=variant, syscall=c["name"]), False)
+                continue
+            stats["edit_fault_points"] += 1
+            cases.append({"in": case["in"], "obs": case["obs"], "gen": "fs-edits",
+                          "what": "%s with %s failing (%s), then menu / save / delete / save in the same process" % (variant, c["name"], ERRS[c["name"]])})
     fails, errs, wall = vp.eval_cases(self.cfg["rmod"], self.cfg["judge"], cases, shard=12, tag="c19fs")
     self.cov["evaluations"] += len(cases)
     self.cov["c19_fs"] = dict(stats, cases=len(cases), eval_wall_s=round(wall, 2))
@@ -261,7 +306,9 @@ def run(self):
         if not f["spec"]:
             info["kind"] = "spec-violated"
             info["what"] = ("settings file is neither the complete old nor the complete new contents after an interrupted/failed save, "
-                            "or the system calls issued by writeSettings are outside the protocol class of theorem crash_atomic")
+                            "or the system calls issued by writeSettings are outside the protocol class of theorem crash_atomic"
+                            if c["gen"] != "fs-edits" else
+                            "after an edit whose write failed, later requests of the same process do not see / produce what the settings file held")
             self.violation(info, True)
         else:
             info["kind"] = "correspondence-broken"
